@@ -159,6 +159,19 @@ func GenC07(r *hx.Rng, tier string, w io.Writer) {
 	x.sub("subh", "-")
 	x.sub("subd", "-")
 	fmt.Fprintln(w, "incl")
+	// a crash at every write boundary of an inclusion pass
+	for keep := 0; keep <= 6; keep++ {
+		x.reset(1, 0)
+		x.produce(false)
+		x.produce(true)
+		x.sub("subh", "-")
+		x.sub("subd", "-")
+		fmt.Fprintln(w, "incl")
+		fmt.Fprintf(w, "crash keep=%d\n", keep)
+		x.sub("subh", "-")
+		x.sub("subd", "-")
+		fmt.Fprintln(w, "incl")
+	}
 	// two blocks with the same transaction list: the data mark is keyed by the commitment
 	x.reset(1, 0)
 	fmt.Fprintln(w, "produce txs=73616d65")
@@ -262,9 +275,17 @@ func GenC08(r *hx.Rng, tier string, w io.Writer) {
 					x.produce(false)
 				}
 			case 4:
-				x.sub("subh", x.script(2))
+				if r.Chance(30) {
+					x.sub("subh", "ok:1|canceled") // part of the backlog is accepted and acknowledged, then the tick ends
+				} else {
+					x.sub("subh", x.script(2))
+				}
 			case 5:
-				x.sub("subd", x.script(2))
+				if r.Chance(30) {
+					x.sub("subd", "ok:1|canceled")
+				} else {
+					x.sub("subd", x.script(2))
+				}
 			default:
 				// the DA layer is back: both loops tick with an accepting DA, then production must resume
 				x.sub("subh", "-")
